@@ -53,6 +53,11 @@ theorem unmarshal_keeps_skipped (S : Schema) (fast : Bool) (fuel : Nat) (md : MD
 theorem template_facts : ∀ t ∈ Generated.unknownHandling, t.2.1 = true ∧ t.2.2.1 = true ∧ t.2.2.2 = true :=
   Bridge.Templates.unknown_fields_handled
 
+/-- `reserved` declarations play no part: the generator never reads them, so the number of a deleted field is an
+    undefined number (`findField … = none`, the hypothesis of `unmarshal_keeps_skipped`) and its data is retained -/
+theorem reserved_numbers_are_undefined_numbers : Generated.reservedMentions = 0 :=
+  Bridge.Templates.generator_ignores_reserved
+
 /-- ownership: the bytes `Marshal()` returns are a buffer allocated by that call (both templates), so nothing
     the caller does to them afterwards can change what the message retains — in the model the result is a value;
     this is the fact that makes that reading of the code sound -/
